@@ -42,7 +42,10 @@ def main() -> int:
             code = 1 if run.violations else 0
             print("replay:", "violation reproduced" if code else "no violation on this tree")
             return code
-        mod.check(run, tier, seed)
+        try:
+            mod.check(run, tier, seed)
+        except framework.TooManyViolations:
+            pass
         return run.finish(proof)
     finally:
         leanmodel.close_all()
